@@ -53,6 +53,10 @@ CHECKS["C07"] = dict(level="fault_enumeration",
    text="On tables built so that any wrong decision deletes something (rewritten manifest, live transaction with aged file, in-flight manifest with payload marker, legacy empty-payload marker, abandoned marker, aged orphans; 6 variants x local / fake S3): (a) a fault at EVERY step of a clean collection run (storage API and os-level calls; S3 requests failing persistently through the retry budget), (b) each listing returning an escaping path, (c) every reachable metadata-plane file corrupted in every way an independent parser rejects. After each run, raised or not, no file reachable in the undamaged table and no file protected by a live marker may be missing.",
    note="True reachability/protection come from the independent reader on the undamaged table and from the harness's knowledge of the markers it planted. A run that raises after deleting only true orphans is allowed by the statement (protection stayed in force) and is counted, not flagged.",
    technique="exhaustive fault injection over the recorded step sequence of GC + corruption enumeration, oracle = independent reachability", design="3/C07")
+CHECKS["C16"] = dict(level="fault_enumeration",
+   text="The os-level trace (mkstemp, NamedTemporaryFile, native parquet write, write, fsync, close, replace, remove, open, makedirs) of whole Hypothesis-generated histories, from table creation on, is replayed on a model file system with volatile/durable content per inode and volatile/durable entries per directory; at every prefix, and in particular at every pointer rename, every file reachable from the version the pointer names (independent reader) must have durable content and a durable directory entry, and the pointer's own content must be flushed before its rename. Exhaustive over the prefixes of each generated trace.",
+   note="A model of POSIX power-loss semantics, not a power cycle. fsync via a fresh read-only descriptor of the same inode counts (Linux). Durability of newly created directories' own entries is a diagnostic only.",
+   technique="trace-prefix enumeration over Hypothesis-generated histories against a power-loss model file system", design="3/C16")
 NOT_YET = {}
 
 def main():
